@@ -12,8 +12,8 @@ ANCHORS = ["pyoma2.functions.gen:HC_conj", "pyoma2.functions.gen:HC_damp", "pyom
 ALGS = ["SSIcov", "SSIdat", "SSIcov_MS", "SSIdat_MS", "pLSCF", "pLSCF_MS"]
 REQUIRED_MONITORS = [f"sound+complete@{a}.run" for a in ALGS] + [f"one-NaN-pattern@{a}.run" for a in ALGS] + ["conj-injection@run", "HC_conj(function)", "sound+complete@SSIcov.run(calc_unc)"]
 CRIT = ["conj", "xi", "mpc", "mpd", "cov"]
-ALL_STATES = [f"fails {c} alone" for c in CRIT] + ["fails several", "passes all", "conj=False keeps orphan"]
-REQUIRED_STATES = ["fails xi alone", "fails mpc alone", "fails mpd alone", "fails cov alone", "fails conj alone", "passes all", "conj=False keeps orphan"]
+ALL_STATES = [f"fails {c} alone" for c in CRIT] + ["fails several", "passes all", "conj=False keeps orphan", "ordmin > 0"]
+REQUIRED_STATES = ["ordmin > 0", "fails xi alone", "fails mpc alone", "fails mpd alone", "fails cov alone", "fails conj alone", "passes all", "conj=False keeps orphan"]
 RULE = ("noisy responses of systems with complex non-proportional shapes, high model orders (many spurious, negatively damped and real poles); a first "
         "run observes the indicator distributions of the unfiltered solution (captured at the return of SSI_poles / pLSCF_poles in the same "
         "execution), later runs put xi_max / mpc_lim / mpd_lim / cov_max at their 30..70 % quantiles; every cell of every run is judged for "
@@ -25,7 +25,7 @@ ASSUMPTIONS = ["poles whose indicator lies within relative 1e-9 of a threshold, 
 
 
 def cases(tier, seed):
-    n, ninj, nfn = (18, 12, 40) if tier == "quick" else (200, 120, 800)
+    n, ninj, nfn = (30, 12, 40) if tier == "quick" else (300, 120, 800)
     out = []
     for k in range(n):
         out.append({"cls": "adaptive_thresholds", "alg": ALGS[k % len(ALGS)], "k": k})
@@ -184,9 +184,9 @@ def build(alg, fs, data, ref, datasets, hc, rng, extra=None):
     cls = getattr(A_, alg)
     if alg.startswith("pLSCF"):
         h = {k: v for k, v in hc.items() if k != "cov_max"}
-        kw = dict(ordmax=int(extra.get("ordmax", 9)), nxseg=256, hc=h, method_SD=extra.get("method_SD", "per"))
+        kw = dict(ordmax=int(extra.get("ordmax", 9)), nxseg=256, hc=h, method_SD=extra.get("method_SD", "per"), ordmin=int(extra.get("ordmin", 0)))
     else:
-        kw = dict(br=int(extra.get("br", 10)), ordmax=int(extra.get("ordmax", 22)), hc=dict(hc))
+        kw = dict(br=int(extra.get("br", 10)), ordmax=int(extra.get("ordmax", 22)), hc=dict(hc), ordmin=int(extra.get("ordmin", 0)))
         if alg.endswith("_MS"):
             kw["ordmax"] = min(kw["ordmax"], (kw["br"] + 1) * len(ref[0]) - 2)
         elif extra.get("ref_ind"):
@@ -248,6 +248,10 @@ def run_adaptive(ctx, case, rng, calc_unc=False):
     alg = "SSIcov" if calc_unc else case["alg"]
     fs, data, ref, datasets = make_data(rng, alg.endswith("_MS"))
     extra = dict(ordmax=(8 if alg.startswith("pLSCF") else (10 if calc_unc else int(rng.integers(16, 26)))))
+    # the criteria hold "at every model order": also below ordmin, which only limits the stability labels
+    extra["ordmin"] = int(rng.choice([0, 0, 3, 6]))
+    if extra["ordmin"]:
+        ctx.state("ordmin > 0")
     if calc_unc:
         extra.update(calc_unc=True, nb=int(rng.choice([10, 20])), br=6, method="cov_mm")
     elif alg in ("SSIcov", "SSIdat") and rng.random() < 0.5:
